@@ -28,15 +28,25 @@ REQUIRED_THEOREMS = [
         "post_init_once_last",
         "ctor_resolves_full_fails",
         "key_required_iff_no_default_full_fails",
+        "bootstrapAll_prefix",
+        "construct_ignores_later_classes",
     )
 ]
 RULE = (
     "case = class hierarchy of depth <= 3 (single spec class; spec parent + plain subclass; spec chains of 2 and 3; "
-    "two spec parents; diamond; plain class between spec classes; plain base) with per-class declarations "
+    "two spec parents; diamond; plain class between spec classes; plain base; siblings that are never joined, with a plain "
+    "or spec grandchild) with per-class declarations "
     "(annotation x {no default, literal, Attr(default), Attr(default_factory), Attr(), dataclasses.field}, init=False, "
     "inherited attributes untouched / re-defaulted by a plain value / re-declared by Attr or field WITHOUT annotation with "
-    "their own (flipped) init / re-declared with annotation, key with/without default, overflow attribute, preparer, "
+    "their own (flipped) init / re-declared with annotation, key with/without default, overflow attribute, "
+    "_prepare_<attr> and _prepare_<item> methods PER CLASS (3 distinguishable functions; on int/str/Any/List[int] attributes; "
+    "defined by the declaring class, by spec and plain subclasses that re-default / re-declare the attribute and by spec and "
+    "plain subclasses whose body does NOT mention it; an override always uses another function than the one it shadows), "
+    "do_not_copy=True/[names] on spec classes, "
     "hand-written __init__ of the documented shape, __post_init__, lazy/eager bootstrap) rendered to source and exec'd, "
+    "x a HISTORY of constructor calls: every class of the family used for the first time in a generated order (parents "
+    "first / leaf first / shuffled; metadata of all classes inspected first or last), without and with keywords, random calls, "
+    "then the same keyword calls again after every class has been used; "
     "x constructor calls on every class of the hierarchy with keyword subsets (quick: sampled, thorough: all subsets "
     "when <= 6 names) over init-enabled, init=False, overflow-attribute and unknown names, conforming and non-conforming "
     "values, key positional / by keyword / both / absent. Non-trivial = a call that assigned at least one attribute or "
@@ -44,6 +54,8 @@ RULE = (
 )
 EXHAUSTIVE = {"quick": False, "thorough": False}
 OPEN_STATEMENTS = [
+    "construct_ignores_later_classes / bootstrapAll_prefix state that the MODEL has no state shared between classes; that the real "
+    "code behaves like it under lazy bootstrapping is validated per run by the generated histories (correspondence + history oracle)",
     "ctor_resolves_full (wfCore only) is FALSE on the real code: KF-C09-diamond-second-parent; Lean witness ctor_resolves_full_fails",
     "key_required_iff_no_default_full (wfCore only) is FALSE on the real code: KF-C09-plain-subclass-key-default; Lean witness key_required_iff_no_default_full_fails",
     "bootstrapMeta (for_class + bootstrap) is not the subject of a theorem: wfCall states the relation between metadata and declared table "
@@ -55,8 +67,12 @@ OPEN_STATEMENTS = [
 ]
 ASSUMPTIONS = [
     "the MRO of every class is an input of the model (C3 linearisation is CPython's; the harness reads cls.__mro__)",
-    "the annotation and the preparer of an attribute name are the same wherever the name is declared in one hierarchy",
-    "attribute types are int/str/Any and values ints/strings/lists (no collections-of-spec, no descriptors masking attributes)",
+    "the annotation of an attribute name is the same wherever the name is declared in one hierarchy (preparers are per class)",
+    "attribute types are int/str/Any/List[int] and values ints/strings/int lists (no collections-of-spec, no descriptors "
+    "masking attributes); the singular of the collection attribute `ns` is `n` and collides with no attribute",
+    "READING: when several classes of a hierarchy define _prepare_<attr>, the property text does not say which one prepares; "
+    "the oracle accepts the preparer any class of the INSTANCE's MRO sees (never one of a class outside that MRO), the model "
+    "pins the code's choice (the one visible from the nearest class that declares or re-defaults the attribute)",
     "hand-written constructors have the documented shape `def __init__(self, a=d, ...): self.a = f(a)` and no key",
     "READING: init=False attributes are not assigned by the constructor (documented); they read as the class-level default, "
     "a default_factory of such an attribute is never called",
@@ -65,9 +81,11 @@ ASSUMPTIONS = [
     "defaults are fixed points of the attribute's preparer (construction runs defaults through the preparer too)",
 ]
 
-TYPES = {"a": "int", "b": "int", "c": "str", "d": "any", "e": "int", "k": "str", "opts": "dict"}
-ATTR_POOL = ["a", "b", "c", "d", "e"]
+TYPES = {"a": "int", "b": "int", "c": "str", "d": "any", "e": "int", "k": "str", "opts": "dict", "ns": "ints"}
+ATTR_POOL = ["a", "b", "c", "d", "e", "ns"]
 UNKNOWN = ["zz", "yy"]
+ITEM = {"ns": "n"}  # collection attribute -> its singular (what spec_classes derives: `_prepare_n` prepares the items of `ns`)
+N_PREP = 3  # preparer function ids 1..N_PREP
 
 _ns_cache = {}
 
@@ -116,7 +134,22 @@ def pylit(v):
 # rendering a case to Python source
 # ---------------------------------------------------------------------------
 
-PY_TYPES = {"int": "int", "str": "str", "any": "Any", "dict": "Any"}
+PY_TYPES = {"int": "int", "str": "str", "any": "Any", "dict": "Any", "ints": "List[int]"}
+
+
+def pdefs_of(c, case):
+    """`_prepare_<attr>` methods defined in the body of class `c`: attr -> function id. (Old-format cases carry a
+    hierarchy-wide list `preps`: every spec class that declares such a name with annotation defines preparer 1.)"""
+    if "pdefs" in c:
+        return c["pdefs"]
+    if not c["spec"]:
+        return {}
+    return {d["name"]: 1 for d in c["decls"] if d["ann"] and d["name"] in case.get("preps", [])}
+
+
+def idefs_of(c, case):
+    """`_prepare_<item>` methods defined in the body of `c`, keyed by the COLLECTION attribute: attr -> function id."""
+    return c.get("idefs", {})
 
 
 def render_class(c, case):
@@ -129,6 +162,8 @@ def render_class(c, case):
             args.append("init_overflow_attr=" + ("None" if c["ovf"] == "-" else repr(c["ovf"])))
         if c.get("eager"):
             args.append("bootstrap=True")
+        if c.get("dnc") not in (None, "?"):
+            args.append("do_not_copy=" + repr(c["dnc"]))
         lines.append("@spec_class(%s)" % ", ".join(args) if args else "@spec_class")
     lines.append("class %s(%s):" % (c["name"], ", ".join(c["bases"])) if c["bases"] else "class %s:" % c["name"])
     body = []
@@ -152,10 +187,10 @@ def render_class(c, case):
                 a.append("init=False")
             rhs = f"{fn}({', '.join(a)})"
         body.append(f"{d['name']}{ann} = {rhs}")
-    if c["spec"]:
-        for d in c["decls"]:
-            if d["ann"] and d["name"] in case.get("preps", []):
-                body.append(f"def _prepare_{d['name']}(self, v): return PREP(v)")
+    for a, n in sorted(pdefs_of(c, case).items()):
+        body.append(f"def _prepare_{a}(self, v, _pid={n}): return PREP(_pid, v)")
+    for a, n in sorted(idefs_of(c, case).items()):
+        body.append(f"def _prepare_{ITEM[a]}(self, v, _pid={n}): return PREP(_pid, v)")
     if c.get("hand") is not None:
         params = []
         for p in c["hand"]:
@@ -177,19 +212,36 @@ def render(case):
     return "\n\n".join(render_class(c, case) for c in case["classes"]) + "\n"
 
 
-def _prep(v):
-    return v % 100 if isinstance(v, int) and not isinstance(v, bool) else v
+def _prep(n, v):
+    """Preparer function `n` of the grammar (0 = no preparer). Values below 100 and strings other than "mm" are
+    fixed points, so declared defaults are never changed by a preparer."""
+    if n == 0:
+        return v
+    if isinstance(v, int) and not isinstance(v, bool):
+        return v % 100 + 1000 * (n - 1) if v >= 100 else v
+    if isinstance(v, str) and v == "mm":
+        return "m" + "abcd"[min(n, 4) - 1]
+    return v
+
+
+def _pid(fn):
+    """function id of a `_prepare_*` method rendered by `render_class` (0 = None)."""
+    if not fn:
+        return 0
+    fn = getattr(fn, "__func__", fn)
+    d = getattr(fn, "__defaults__", None)
+    return d[0] if d else -1
 
 
 def build(case):
     """exec the rendered hierarchy in a fresh namespace (fresh classes per call)."""
     import dataclasses
-    from typing import Any
+    from typing import Any, List
 
     from spec_classes import Attr, spec_class
 
     ns = {
-        "spec_class": spec_class, "Attr": Attr, "dataclasses": dataclasses, "Any": Any,
+        "spec_class": spec_class, "Attr": Attr, "dataclasses": dataclasses, "Any": Any, "List": List,
         "LOG": [], "POST": [], "PREP": _prep,
         "F0": lambda x: x, "F1": lambda x: x + 1, "F2": lambda x: 100,
         "__name__": "c09case",
@@ -211,7 +263,8 @@ def decl_tok(d):
     ])
 
 
-def class_line(c):
+def class_line(c, case=None):
+    case = case or {}
     hand = "-"
     if c.get("hand") is not None:
         hand = ",".join(f"{p['name']}:{'!' if p['default'] is None else tok(p['default'])}:{p['f']}" for p in c["hand"]) or "-"
@@ -221,6 +274,8 @@ def class_line(c):
         "class", c["name"], "1" if c["spec"] else "0", ",".join(c["bases"]) or "-", ",".join(c["mro"]),
         c["key"], c["ovf"], "1" if c.get("post") else "0", hand,
         ",".join(decl_tok(d) for d in c["decls"]) or "-",
+        ",".join(f"{a}:{n}" for a, n in sorted(pdefs_of(c, case).items())) or "-",
+        ",".join(f"{a}:{n}" for a, n in sorted(idefs_of(c, case).items())) or "-",
     ])
 
 
@@ -233,9 +288,8 @@ def call_line(call):
 
 def model_lines(case):
     names = sorted(case["types"])
-    head = "reset " + ",".join(f"{n}:{case['types'][n]}" for n in names) + " " + (
-        ",".join(f"{n}:1" for n in case.get("preps", [])) or "-")
-    return [head] + [class_line(c) for c in case["classes"]] + [call_line(c) for c in case["calls"]]
+    head = "reset " + ",".join(f"{n}:{case['types'][n]}" for n in names)
+    return [head] + [class_line(c, case) for c in case["classes"]] + [call_line(c) for c in case["calls"]]
 
 
 # ---------------------------------------------------------------------------
@@ -344,7 +398,8 @@ def show_meta(case, cls):
     attrs = []
     for a, sp in m.attrs.items():
         fac = sp.default_factory() if sp.default_factory is not MISSING else MISSING
-        attrs.append(f"{a}:{sp.owner.__name__}:{1 if sp.init else 0}:{tok_real(sp.default)}:{tok_real(fac)}")
+        attrs.append(f"{a}:{sp.owner.__name__}:{1 if sp.init else 0}:{tok_real(sp.default)}:{tok_real(fac)}"
+                     f":p{_pid(sp.prepare)}:q{_pid(sp.prepare_item)}")
     post = m.post_init.__qualname__.split(".")[0] if m.post_init else "-"
     return f"spec key={m.key or '-'} ovf={m.init_overflow_attr or '-'} post={post} attrs={','.join(attrs)} dict={dict_s}"
 
@@ -366,6 +421,27 @@ def _nearest(cdefs, mro, a):
         if d is not None:
             return _decl_default(d)
     return None
+
+
+def _mentions(cdefs, kk, a):
+    """the body of the decorated class kk mentions `a` (annotation, Attr/field object, class-level value, overflow attr)"""
+    c = cdefs[kk]
+    return bool(c["spec"]) and (any(d["name"] == a for d in c["decls"]) or c["ovf"] == a)
+
+
+def _visible_prep(case, cdefs, mro, a, item=False):
+    """what `getattr(cls, "_prepare_<a>")` shows on a class with this MRO: function id of the first definition, 0 = none"""
+    for kk in mro:
+        defs = idefs_of(cdefs[kk], case) if item else pdefs_of(cdefs[kk], case)
+        if a in defs:
+            return defs[a]
+    return 0
+
+
+def declared_prep(case, cdefs, mroC, a, item=False):
+    """`declaredPrep` of Model/C09.lean: the preparer visible from the nearest class along the MRO that (re)builds `a`"""
+    b = next((kk for kk in mroC if _mentions(cdefs, kk, a)), None)
+    return _visible_prep(case, cdefs, cdefs[b]["mro"], a, item) if b is not None else 0
 
 
 def py_wf(case, ns, cname):
@@ -430,6 +506,10 @@ def py_wf(case, ns, cname):
         else:
             ok = ok and sp.init and im.init_overflow_attr != im.key and (
                 sp.has_default == (_nearest(cdefs, mroC, im.key) is not None))
+    for a, sp in im.attrs.items():
+        if sp.init:
+            ok = ok and _pid(sp.prepare) == declared_prep(case, cdefs, mroC, a) and (
+                _pid(sp.prepare_item) == declared_prep(case, cdefs, mroC, a, item=True))
     return bool(ok), gen
 
 
@@ -466,6 +546,8 @@ def conforms(ty, v):
         return isinstance(v, int) and not isinstance(v, bool)
     if ty == "str":
         return isinstance(v, str)
+    if ty == "ints":
+        return isinstance(v, list) and all(isinstance(x, int) and not isinstance(x, bool) for x in v)
     return False
 
 
@@ -489,16 +571,45 @@ def decl_default(d):
 
 def oracle_call(case, ns, call):
     """Check one constructor call against the property text. Returns a list of violations."""
+    viol, _obs = oracle_call_obs(case, ns, call)
+    return viol
+
+
+def oracle_call_obs(case, ns, call):
+    """-> (violations, observation) where observation = (error class, canonical state) of the call as it ran."""
+    viol = []
+    obs = [None]
+    _oracle_call(case, ns, call, viol, obs)
+    return viol, obs[0]
+
+
+def _oracle_call(case, ns, call, viol, obs):
     from spec_classes import MISSING
 
     cdefs = {c["name"]: c for c in case["classes"]}
     cls = ns[call["cls"]]
     mro = [k.__name__ for k in cls.__mro__ if k is not object]
     spec_mro = [k for k in mro if cdefs[k]["spec"]]
-    viol = []
     inst, err, trace, posts = run_call(ns, case, call)
+    obs[0] = (err, show_state(case, inst) if inst is not None else "")
     if not spec_mro:
         return viol
+
+    def prepared(a, v):
+        """The values "the prepared v" may be: the property text does not say WHICH class's `_prepare_<a>` is in
+        force when several classes of the hierarchy define one, so every reading "the preparer some class of the
+        instance's MRO sees by attribute lookup" is accepted (and only those: a preparer defined by a class that is
+        not in the MRO of the instance's class has no business here). Items of a collection likewise."""
+        pids = {_visible_prep(case, cdefs, cdefs[kk]["mro"], a) for kk in mro}
+        out = []
+        for pid in sorted(pids):
+            w = _prep(pid, v)
+            if case["types"].get(a) == "ints" and isinstance(w, list):
+                iids = {_visible_prep(case, cdefs, cdefs[kk]["mro"], a, item=True) for kk in mro}
+                out.extend([_prep(i, x) for x in w] for i in sorted(iids))
+            else:
+                out.append(w)
+        return out
     k0 = spec_mro[0]
     top_hand = cdefs[k0].get("hand") is not None
 
@@ -600,20 +711,20 @@ def oracle_call(case, ns, call):
                 v = v + 1
             elif p["f"] == 2:
                 v = 100
-            if p["name"] in case.get("preps", []):
-                v = _prep(v)
+            if case["types"][p["name"]] == "ints" and v == "":
+                v = []  # an empty string is an empty iterable
             if not conforms(case["types"][p["name"]], v):
-                if err != "TypeError":
+                if err not in (("TypeError", "ValueError") if case["types"][p["name"]] == "ints" else ("TypeError",)):
                     viol.append(f"non-conforming value for {p['name']}: expected TypeError, got {err or 'success'}")
                 return viol
-            exp[p["name"]] = v
+            exp[p["name"]] = prepared(p["name"], v)
         if err is not None:
             viol.append(f"hand-written ctor call raised {err}")
             return viol
-        for a, v in exp.items():
+        for a, vs in exp.items():
             got = inst.__dict__.get(a, MISSING)
-            if got != v:
-                viol.append(f"{a} == {got!r}, hand-written ctor assigns {v!r}")
+            if got not in vs:
+                viol.append(f"{a} == {got!r}, hand-written ctor assigns the prepared value (one of {vs!r})")
         return viol
 
     # attributes that a hand-written constructor of a class other than their owner assigns as well
@@ -625,6 +736,7 @@ def oracle_call(case, ns, call):
     unknown = [n for n in kw if n not in managed]
 
     must_raise = []
+    or_value_error = []
     if len(pos) > (1 if key else 0):
         must_raise.append("too many positional arguments")
     if pos and key and key in kw:
@@ -671,12 +783,14 @@ def oracle_call(case, ns, call):
             elif p["f"] == 2:
                 v = 100
         if v is not None:
-            if a in case.get("preps", []):
-                v = _prep(v)
+            if case["types"][a] == "ints" and v == "":
+                v = []  # an empty string is an empty iterable
             if not conforms(case["types"][a], v):
                 must_raise.append(f"non-conforming value for {a}")
+                if case["types"][a] == "ints":
+                    or_value_error.append(a)  # a collection rejects a foreign item with ValueError
                 continue
-        exp[a] = v
+        exp[a] = [None] if v is None else prepared(a, v)
     # a hand-written parent constructor only receives the attributes it owns: a required parameter that
     # nothing supplies makes Python raise TypeError
     for k in spec_mro[1:]:
@@ -689,7 +803,7 @@ def oracle_call(case, ns, call):
     if must_raise:
         if err is None:
             viol.append(f"construction succeeded, expected TypeError ({'; '.join(must_raise)})")
-        elif err != "TypeError":
+        elif err != "TypeError" and not (err == "ValueError" and or_value_error):
             viol.append(f"raised {err}, expected TypeError ({'; '.join(must_raise)})")
         return viol
     if err is not None:
@@ -706,9 +820,9 @@ def oracle_call(case, ns, call):
             continue  # accepted reading: either value
         if a in clobbered:
             continue
-        if got != exp.get(a):
-            why = "keyword value" if a in given else "nearest default along the MRO"
-            viol.append(f"{a} == {got!r}, expected {exp.get(a)!r} ({why})")
+        if got not in exp.get(a, [None]):
+            why = "prepared keyword value" if a in given else "nearest default along the MRO"
+            viol.append(f"{a} == {got!r}, expected {why}: one of {exp.get(a)!r}")
     for a in managed:
         if a == ovf or a in accepted or a in clobbered:
             continue
@@ -739,7 +853,7 @@ def oracle_call(case, ns, call):
                 viol.append(f"__post_init__ saw {snap}, final state {final}")
     elif n_post:
         viol.append(f"unexpected __post_init__ events {n_post}")
-    owners = {owner(a) for a in accepted if exp.get(a) is not None}
+    owners = {owner(a) for a in accepted if exp.get(a, [None]) != [None]}
     for k in spec_mro[1:]:
         n = trace.count(f"ctor {k}")
         if k in owners and n != 1:
@@ -760,15 +874,51 @@ def oracle(case):
         ns = build(case)
     except Exception as e:  # noqa: BLE001
         return [f"class construction raised {type(e).__name__}: {e}"]
+    if case.get("dump_first"):
+        for c in case["classes"]:  # the history "every class of the family was inspected (bootstrapped) first"
+            getattr(ns[c["name"]], "__spec_class__", None)
     viol = []
+    observed = []
     for i, call in enumerate(case["calls"]):
-        vs = oracle_call(case, ns, call)
+        vs, obs = oracle_call_obs(case, ns, call)
+        observed.append(obs)
         if vs and py_wf(case, ns, call["cls"])[0]:
             # the theorems cover this call (wfCall holds) and still the property fails: model, WF or oracle is wrong
             vs = ["[covered by wfCall] " + v for v in vs]
         for v in vs:
             viol.append(f"call#{i} {call['cls']}(pos={call['pos']}, kw={call['kw']}): {v}")
         if len(viol) > 6:
+            break
+    if not viol:
+        viol.extend(history_check(case, observed))
+    return viol
+
+
+def history_check(case, observed):
+    """What the constructor of a class assigns is a function of what the class's hierarchy SPECIFIES, not of which
+    other classes of the family happened to be used (bootstrapped, instantiated) earlier in the process: every call
+    of the history is repeated in a fresh copy of the same class family in which ONLY the target class is ever used
+    (so nothing but the class and its ancestors is bootstrapped), and must give the same outcome."""
+    viol = []
+    by_cls = {}
+    for i, call in enumerate(case["calls"]):
+        if i < len(observed) and observed[i] is not None:
+            by_cls.setdefault(call["cls"], []).append(i)
+    if len(by_cls) < 2 and not case.get("dump_first"):
+        return viol  # a single class was ever used: the history IS the solo family
+    for cls, idxs in by_cls.items():
+        solo = build(case)
+        for i in idxs:
+            call = case["calls"][i]
+            inst, err, _, _ = run_call(solo, case, call)
+            got = (err, show_state(case, inst) if inst is not None else "")
+            if got != observed[i]:
+                used = sorted({c["cls"] for c in case["calls"][:i]} - {cls}) + (["<all classes inspected>"] if case.get("dump_first") else [])
+                viol.append(
+                    f"history call#{i} {cls}(pos={call['pos']}, kw={call['kw']}): outcome {observed[i]} after {used} were used, "
+                    f"but {got} in a fresh copy of the class family in which only {cls} is ever used")
+                break
+        if len(viol) > 3:
             break
     return viol
 
@@ -778,9 +928,12 @@ def oracle(case):
 # ---------------------------------------------------------------------------
 
 # falsy values (0, "", []) on purpose: a truthiness test in place of `is not MISSING` must show
-CONF = {"int": [5, 7, 103, 250, 0], "str": ["u", "v", ""], "any": [[1, 2], 9, "w", [], 0], "dict": [9, "w", [1, 2]]}
-NONCONF = {"int": ["bad", [1]], "str": [3, [2]], "any": [], "dict": []}
-DEFAULTS = {"int": [1, 2, 3, 44, 0, 0], "str": ["x", "y", "", ""], "any": [[4], 6, [7, 8], [], 0]}
+# values >= 100 and the string "mm" are the ones a preparer changes (each preparer function differently)
+CONF = {"int": [5, 7, 103, 250, 0], "str": ["u", "v", "", "mm"], "any": [[1, 2], 9, "w", [], 0, 150, "mm"], "dict": [9, "w", [1, 2]],
+        "ints": [[1, 2], [301, 7], [], [150], [3, 250, 101], ""]}
+NONCONF = {"int": ["bad", [1]], "str": [3, [2]], "any": [], "dict": [], "ints": [5, "mm", 0]}
+DEFAULTS = {"int": [1, 2, 3, 44, 0, 0], "str": ["x", "y", "", ""], "any": [[4], 6, [7, 8], [], 0],
+            "ints": [[4], [7, 8], [], [1]]}
 
 SHAPES = [
     # (name, bases, spec)
@@ -796,6 +949,10 @@ SHAPES = [
     [("M", [], False), ("S", ["M"], True)],
     [("A", [], True), ("P", ["A"], False), ("Q", ["P"], False)],
     [("A", [], True), ("M", [], False), ("C", ["A", "M"], True)],
+    # siblings that are never joined (one parent's Attr objects are shared by both)
+    [("R", [], True), ("A", ["R"], True), ("B", ["R"], True)],
+    [("R", [], True), ("A", ["R"], True), ("B", ["R"], True), ("D", ["A"], False)],
+    [("R", [], True), ("A", ["R"], True), ("C", ["A"], True), ("B", ["R"], True)],
 ]
 
 
@@ -931,9 +1088,51 @@ def gen_hierarchy(rng, shape=None):
             c["post"] = rng.random() < 0.35
         inherited[name] = inh + [a for a in names_here if a not in inh]
         classes.append(c)
-    # preparer on `a` sometimes; defaults must be fixed points (all DEFAULTS are < 100)
-    preps = ["a"] if rng.random() < 0.3 else []
-    return {"types": dict(TYPES), "preps": preps, "classes": classes, "dump_first": rng.random() < 0.5}
+    gen_preparers(rng, classes, inherited)
+    # `do_not_copy` (all attributes / some names): the one option a subclass can change for an inherited attribute
+    # WITHOUT re-declaring it; bootstrap then works on a copy of the parent's Attr instead of the shared object. It does
+    # not change what the constructor assigns (values are compared by equality), so the model does not see it.
+    if rng.random() < 0.35:
+        for c in classes:
+            if c["spec"] and rng.random() < 0.4:
+                names = [a for a in inherited.get(c["name"], []) if a != "opts"]
+                c["dnc"] = True if (not names or rng.random() < 0.5) else sorted(rng.sample(names, min(len(names), rng.randint(1, 2))))
+    return {"types": dict(TYPES), "classes": classes, "dump_first": rng.random() < 0.5}
+
+
+def gen_preparers(rng, classes, inherited):
+    """`_prepare_<attr>` / `_prepare_<item>` methods, per class (defaults are fixed points of every preparer function).
+    A class may define one for an attribute it declares, for an inherited attribute it re-defaults / re-declares, AND
+    for an inherited attribute its body does not mention at all (spec and plain classes alike); an override uses a
+    function other than the one it shadows, so that which preparer is in force shows in the prepared value."""
+    cdefs = {c["name"]: c for c in classes}
+    for c in classes:
+        c["pdefs"], c["idefs"] = {}, {}
+    mode = rng.random()
+    if mode < 0.35:
+        return
+    dense = mode > 0.8
+    for c in classes:
+        visible = list(inherited.get(c["name"], []))
+        for b in c["mro"]:  # class-level names of plain bases that a later spec class may pick up
+            for d in cdefs[b]["decls"]:
+                if d["name"] not in visible:
+                    visible.append(d["name"])
+        own = {d["name"] for d in c["decls"]}
+        for a in visible:
+            if TYPES.get(a) not in ("int", "str", "any", "ints"):
+                continue
+            for item in ((False, True) if TYPES[a] == "ints" else (False,)):
+                field = "idefs" if item else "pdefs"
+                seen = next((cdefs[b][field][a] for b in c["mro"][1:] if a in cdefs[b].get(field, {})), 0)
+                if a in own:
+                    p = 0.45 if c["spec"] else 0.2
+                else:
+                    p = (0.3 if c["spec"] else 0.2) if (seen or dense) else 0.12
+                if dense or item:
+                    p = min(0.8, p * 1.6)
+                if rng.random() < p:
+                    c[field][a] = rng.choice([n for n in range(1, N_PREP + 1) if n != seen])
 
 
 def call_names(case, cls):
@@ -955,11 +1154,11 @@ def gen_value(rng, ty, p_bad=0.08):
     return rng.choice(CONF[ty])
 
 
-def gen_call(rng, case, cls, names=None):
+def gen_call(rng, case, cls, names=None, p_name=0.45):
     ann = call_names(case, cls)
     pool = list(ann)
     if names is None:
-        names = [a for a in pool if rng.random() < 0.45]
+        names = [a for a in pool if rng.random() < p_name]
         if rng.random() < 0.25:
             names.append(rng.choice(UNKNOWN))
         if rng.random() < 0.06 and "opts" not in names:
@@ -991,11 +1190,28 @@ def gen_case(rng, tier, shape=None):
     calls = []
     targets = [c["name"] for c in case["classes"] if any(
         cc["spec"] for cc in case["classes"] if cc["name"] in c["mro"])]
-    ncalls = 6 if tier == "quick" else 10
+    ncalls = 4 if tier == "quick" else 8
     if not targets:
         targets = [case["classes"][-1]["name"]]
-    for cls in targets:
-        calls.append({"cls": cls, "pos": [], "kw": []})
+    # HISTORY. Spec classes bootstrap lazily, on first use, and share their parents' Attr objects: what a class's
+    # constructor does must not depend on which other classes of the family were used before. Every target is used
+    # for the first time in a generated order (parents first / leaf first / shuffled: each class is constructed BEFORE
+    # and AFTER each subclass and each sibling was first used, across cases), with and without keywords; the very same
+    # keyword calls are repeated at the end, after every class of the family has been used.
+    order = rng.choice(["parents-first", "leaf-first", "shuffled"])
+    first = list(targets)
+    if order == "leaf-first":
+        first.reverse()
+    elif order == "shuffled":
+        rng.shuffle(first)
+    case["order"] = order
+    firsts = {}
+    for cls in first:
+        firsts[cls] = gen_call(rng, case, cls, p_name=0.6)
+        pair = [{"cls": cls, "pos": [], "kw": []}, firsts[cls]]
+        if rng.random() < 0.5:
+            pair.reverse()
+        calls.extend(pair)
     leaf = targets[-1]
     if tier == "thorough":
         ann = call_names(case, leaf)
@@ -1006,6 +1222,11 @@ def gen_case(rng, tier, shape=None):
                     calls.append(gen_call(rng, case, leaf, names=list(sub)))
     for _ in range(ncalls):
         calls.append(gen_call(rng, case, rng.choice(targets) if rng.random() < 0.4 else leaf))
+    echo = list(targets)
+    rng.shuffle(echo)
+    for cls in echo:
+        if len(targets) > 1:
+            calls.append({**firsts[cls], "kw": [list(p) for p in firsts[cls]["kw"]], "pos": list(firsts[cls]["pos"])})
     case["calls"] = calls
     return case
 
@@ -1014,7 +1235,7 @@ def gen_cases(tier, rng):
     if tier == "search":
         while True:
             yield gen_case(rng, "quick")
-    n = 260 if tier == "quick" else 2200
+    n = 340 if tier == "quick" else 2200
     for i in range(n):
         shape = SHAPES[i % len(SHAPES)] if i < 8 * len(SHAPES) else None
         c = gen_case(rng, tier, shape)
@@ -1025,7 +1246,12 @@ def gen_cases(tier, rng):
 def shrink(case, at=None):
     n_fixed = 1 + len(case["classes"])
     if at is not None and at >= n_fixed:
-        yield {**case, "calls": [case["calls"][at - n_fixed]]}
+        i = at - n_fixed
+        yield {**case, "calls": [case["calls"][i]]}
+        yield {**case, "calls": case["calls"][: i + 1]}  # the history up to the disagreeing call
+        for j in range(i):  # one earlier use of another class + the disagreeing call
+            if case["calls"][j]["cls"] != case["calls"][i]["cls"]:
+                yield {**case, "calls": [case["calls"][j], case["calls"][i]]}
     for i in range(len(case["calls"])):
         yield {**case, "calls": [case["calls"][i]]}
 
@@ -1048,7 +1274,15 @@ def nontrivial(case, real):
 def tags(case, real):
     t = [f"shape:{'-'.join(c['name'] + ('' if c['spec'] else '.plain') for c in case['classes'])}",
          f"origin:{case.get('origin', 'corpus')}", f"dump_first:{bool(case.get('dump_first'))}"]
+    t.append(f"history:{case.get('order', 'corpus')}")
+    cdefs = {c["name"]: c for c in case["classes"]}
     for c in case["classes"]:
+        for field, label in (("pdefs", "prep"), ("idefs", "item-prep")):
+            for a in (pdefs_of(c, case) if field == "pdefs" else idefs_of(c, case)):
+                shadows = any(a in (pdefs_of(cdefs[b], case) if field == "pdefs" else idefs_of(cdefs[b], case)) for b in c["mro"][1:])
+                how = "declared" if any(d["name"] == a and d["ann"] for d in c["decls"]) else (
+                    "redefaulted" if any(d["name"] == a for d in c["decls"]) else "untouched")
+                t.append(f"{label}:{'spec' if c['spec'] else 'plain'}-class:{how}{':override' if shadows else ''}")
         if c.get("hand") is not None:
             t.append("feature:hand-written-ctor")
         if c["key"] not in ("?", "-"):
@@ -1059,6 +1293,8 @@ def tags(case, real):
             t.append("feature:post_init")
         if c.get("eager"):
             t.append("feature:eager-bootstrap")
+        if c.get("dnc") not in (None, "?"):
+            t.append("feature:do_not_copy")
         for d in c["decls"]:
             t.append(f"decl:{d['kind']}{'' if d['ann'] else '-unannotated'}{'' if d.get('init', True) else '-noninit'}"
                      f"{'-factory' if d.get('factory') is not None else ''}")
@@ -1249,7 +1485,7 @@ WITNESS_PLAINKEY = {
 }
 
 MANIFEST_ENTRY = {
-    "level_text": "Lean 4 proof about an executable model of SpecClassMetadata.for_class + spec_class.bootstrap + Attr.lookup_default_value + the generated __init__ signature + InitMethod.init (parents loop, own loop, overflow, __post_init__) and hand-written parent constructors: for class tables of any depth and width satisfying an explicit decidable well-formedness predicate, a successful construction leaves every init-enabled managed attribute equal to the prepared keyword value, else the nearest declared default along the MRO, else unset; the key may be passed positionally and is required iff it has no default; unknown keywords raise TypeError without an overflow attribute, which otherwise receives exactly them; every spec parent's constructor runs exactly once, every attribute is assigned at most once, and __post_init__ runs exactly once and last. The model is tied to /repo on every run: generated hierarchies of depth <= 3 are rendered to source, exec'd, and metadata, class dicts, resulting instance state, exception class and the event trace (constructor entries, mutate_attr entries, __post_init__) are compared line by line with the model.",
+    "level_text": "Lean 4 proof about an executable model of SpecClassMetadata.for_class + spec_class.bootstrap + Attr.lookup_default_value + the generated __init__ signature + InitMethod.init (parents loop, own loop, overflow, __post_init__) and hand-written parent constructors: for class tables of any depth and width satisfying an explicit decidable well-formedness predicate, a successful construction leaves every init-enabled managed attribute equal to the keyword value prepared by the preparer (and, for a List[int] attribute, item preparer) the class bodies DECLARE for it (per-class _prepare_<attr>/_prepare_<item> methods; the one visible from the nearest class of the MRO that declares or re-defaults the attribute), else the nearest declared default along the MRO, else unset; the key may be passed positionally and is required iff it has no default; unknown keywords raise TypeError without an overflow attribute, which otherwise receives exactly them; every spec parent's constructor runs exactly once, every attribute is assigned at most once, and __post_init__ runs exactly once and last; metadata of a class is unaffected by classes bootstrapped later and a constructor call does the same whether or not further classes (subclasses, siblings) exist. The model is tied to /repo on every run: generated hierarchies of depth <= 3 are rendered to source, exec'd, and metadata, class dicts, resulting instance state, exception class and the event trace (constructor entries, mutate_attr entries, __post_init__) are compared line by line with the model, along generated HISTORIES (each class constructed before and after each subclass/sibling was first used; the history-free model and a fresh single-class copy of the family are the references).",
     "level_note": "Trusted: Lean kernel; axioms propext/Classical.choice/Quot.sound only; the hand-written model and the harness; CPython's C3 linearisation (MRO is an input). The theorems are about the model; bootstrapMeta is tied by the per-class metadata comparison and by re-checking the well-formedness predicate on every generated call. Readings: init=False attributes are not assigned by the constructor; an annotation-only re-declaration drops an inherited default_factory (dataclasses behaviour).",
     "technique": "Lean 4 proof over a hand-written model of bootstrap + constructor; differential correspondence on generated class hierarchies; independent MRO-walking oracle",
 }
